@@ -654,6 +654,9 @@ func (x *Exec) Finish() {
 		x.CheckDoAlive()
 	}
 	stuck := x.W.Close()
+	if x.W.DoStuck {
+		x.Viol("shutdown-does-not-finish", "at shutdown every Connect call had returned and every transport was closed, yet Do did not finish")
+	}
 	for _, a := range stuck {
 		x.Viol("connect-does-not-return", fmt.Sprintf("Connect of attempt %d (%s) did not return after its context was cancelled and its transport closed", a.ID, a.Kind))
 	}
